@@ -374,7 +374,8 @@ QuickSolveGrids == { U(1, 1), U(2, 1), U(2, 2), U(3, 2) }    \* solve mode, case
 ThoroughSolveGrids == QuickSolveGrids \cup { NonUniform23, U(3, 3) }
 ThoroughMcSolveGrids == McSolveGrids \cup { U(3, 1), << <<1, 2, 4>>, <<-1, 0, 2>> >> }
 DefectGrids == { Shifted33 }
-QuickAllocGrids == { U(2, 2), U(3, 1) }
+QuickAllocGrids == { U(2, 1), U(2, 2) }                      \* alloc mode, explored exhaustively in the quick tier
+QuickGenAllocGrids == { U(2, 2), U(3, 2) }                   \* alloc mode, case generation in the quick tier
 NonUniformPos23 == << <<1, 2, 4>>, <<0, 1, 3, 4>> >>          \* allocation documents cannot hold negative centres
 ThoroughAllocGrids == { U(2, 1), U(2, 2), U(3, 1), << <<1, 2, 4>>, <<0, 1, 3>> >> }         \* alloc mode, explored exhaustively
 GenAllocGrids == { U(2, 2), U(3, 2), NonUniformPos23, U(3, 3), Shifted33 }   \* alloc mode, case generation only
@@ -385,12 +386,15 @@ GenAllocGrids == { U(2, 2), U(3, 2), NonUniformPos23, U(3, 3), Shifted33 }   \* 
 Blank == <<>>
 AllOcc(g) == LET n == (Len(g[1]) - 1) * (Len(g[2]) - 1) IN
              [1..n -> OCCVALS] \ { [c \in 1..n |-> 0] }       \* a module to normalise occupies something
-\* "alloc" mode: two modules; module 1 has ratio 0 or 1 in every cell (every pattern but the empty one), module 2
-\* is absent / 0 / one half depending on the position of the cell (it must not influence anything)
+\* "alloc" mode: three modules; module 1 has ratio 0 or 1 in every cell (every pattern but the empty one); module 2
+\* is absent / 0 / one half and module 3 is absent / 1 depending on the position of the cell.  Cells are therefore
+\* OVER-OCCUPIED (1 + 1/2, 1 + 1, 1 + 1/2 + 1: the sum of the ratios exceeds 1) wherever module 1 meets them -- legal
+\* in an allocation document (Allocation deliberately does not assert sum <= 1) and without influence on module 1:
+\* the search works with the ratio AS WRITTEN for the module it normalises.
 AllocsFor(g) ==
   LET n  == (Len(g[1]) - 1) * (Len(g[2]) - 1)
       gc == GridCells(g[1], g[2], [c \in 1..n |-> 0]) IN
-  { [ c \in 1..n |-> <<gc[c][1], gc[c][2], gc[c][3], gc[c][4], 0, 0, <<o[c], ((gc[c][1] + 2 * gc[c][2]) % 3) - 1>> >> ] :
+  { [ c \in 1..n |-> <<gc[c][1], gc[c][2], gc[c][3], gc[c][4], 0, 0, <<o[c], ((gc[c][1] + 2 * gc[c][2]) % 3) - 1, IF (gc[c][1] + gc[c][2]) % 2 = 0 THEN DEN ELSE -1>> >> ] :
       o \in [1..n -> {0, DEN}] \ { [c \in 1..n |-> 0] } }
 InputsFor(g, m) ==
   IF m = "solve" THEN { GridCells(g[1], g[2], o) : o \in AllOcc(g) }
